@@ -13,6 +13,9 @@ import Iodata.Lemmas.Fmt.Pdb
 import Iodata.Lemmas.Fmt.PdbConect
 import Iodata.Lemmas.Fmt.Fchk
 import Iodata.Lemmas.Fmt.Cube
+import Iodata.Lemmas.Fmt.Mol2
+import Iodata.Lemmas.Fmt.Fcidump
+import Iodata.Lemmas.Fmt.Poscar
 import Iodata.Gen.Layouts
 
 namespace Iodata.Props.C15
@@ -143,5 +146,44 @@ theorem cube_generations (L : Cube.Layout) (hL : Cube.LayoutOK L) (o o₁ : Cube
   intro o₂ h3
   rw [h2] at h3
   rw [← Except.ok.inj h3]
+
+/-! ## MOL2 -/
+
+/-- MOL2: the reloaded object (types and charges filled in, unknown bond types mapped to `un`) is a fixed point and stays
+in the domain. -/
+theorem mol2_norm_stable (T : Tables) (L : Mol2.Layout) (hL : Mol2.LayoutOK T L) (o : Mol2.Obj) (h : Mol2.Dom T L o) :
+    Mol2.norm T L (Mol2.norm T L o).obj = Mol2.norm T L o ∧ Mol2.Dom T L (Mol2.norm T L o).obj :=
+  ⟨Mol2.norm_idem T L hL o, Mol2.dom_norm T L hL o h⟩
+
+/-- MOL2: generations 2 and 3 coincide. -/
+theorem mol2_generations (T : Tables) (L : Mol2.Layout) (hL : Mol2.LayoutOK T L) (o : Mol2.Obj) (x₁ : Mol2.Loaded)
+    (h : Mol2.Dom T L o) (h₁ : Mol2.load T L (Mol2.dump T L o) = .ok x₁) :
+    Mol2.load T L (Mol2.dump T L x₁.obj) = .ok x₁ ∧
+    ∀ x₂, Mol2.load T L (Mol2.dump T L x₁.obj) = .ok x₂ → Mol2.dump T L x₂.obj = Mol2.dump T L x₁.obj := by
+  have e : x₁ = Mol2.norm T L o := by
+    have := Mol2.load_dump T L hL o h
+    rw [this] at h₁; exact (Except.ok.inj h₁).symm
+  have h2 := Mol2.load_dump T L hL x₁.obj (e ▸ Mol2.dom_norm T L hL o h)
+  have hid : Mol2.norm T L x₁.obj = x₁ := by rw [e]; exact Mol2.norm_idem T L hL o
+  rw [hid] at h2
+  refine ⟨h2, ?_⟩
+  intro x₂ h3
+  rw [h2] at h3
+  rw [← Except.ok.inj h3]
+
+/-! ## FCIDUMP, index layer -/
+
+/-- FCIDUMP: the array reloaded from the file writes the same index lines again (second generation = first). -/
+theorem fcidump_entries_stable (α : Type) [DecidableEq α] (zero : α) (n : Nat) (T : Helpers.Idx → α) (h : Fcidump.Sym T) :
+    Fcidump.entries zero n (Fcidump.fill zero (Fcidump.entries zero n T)) = Fcidump.entries zero n T :=
+  Fcidump.entries_fill zero n T h
+
+/-! ## POSCAR, structure layer -/
+
+/-- POSCAR: a grouped atom list is written in the same order again: the re-ordering happens once (the remaining drift of
+the real code is floating-point round-off of the direct coordinates: known finding `poscar:*drift*`). -/
+theorem poscar_group_stable (α : Type) (key : α → Nat) (atoms : List α) :
+    Poscar.group key (Poscar.group key atoms) = Poscar.group key atoms :=
+  Poscar.group_idem key atoms
 
 end Iodata.Props.C15
